@@ -178,6 +178,35 @@ Section AckInv.
       split; [apply nth_len in X1; lia|]. right. exists j, l. rewrite <- Htm. auto.
     Qed.
 
+    (* the same from the bare evidence: the log agrees in term with the delivered entries at position idx *)
+    Lemma st_resp_ok idx :
+      idx <> 0 -> resp_ok (rt_of ev) L' idx -> (forall md, ev = EDeliver md -> m_term md = T') ->
+      (N.to_nat idx <= length L')%nat /\ exists j l, In (T', j, l) G /\ firstn (N.to_nat idx) L' = firstn (N.to_nat idx) l.
+    Proof.
+      intros Hnz Mg Hterm. pose proof st_GI as GI. pose proof st_GI' as GI'.
+      destruct Mg as [Z0 | [e1 [X1 R1]]]; [contradiction|].
+      assert (Hd : exists md pi pt cm oe, ev = EDeliver md /\ m_body md = AppEnts pi pt cm oe).
+      { unfold rt_of in R1. destruct ev; try contradiction. destruct (m_body m) eqn:Ebd; try contradiction.
+        eexists _, _, _, _, _. split; [reflexivity | exact Ebd]. }
+      destruct Hd as [md [pi [pt [cm [oe [Eev Ebd]]]]]].
+      destruct (Hdel md Eev) as [Min _]. pose proof (g_msgs _ _ _ _ GI md Min) as Mk. unfold msg_ok3 in Mk. rewrite Ebd in Mk.
+      destruct Mk as [j [l [Rin [Sl Tm1]]]].
+      pose proof (Hterm md Eev) as Htm.
+      assert (Hl : exists e2, nth_error l (N.to_nat (idx - 1)) = Some e2 /\ e_term e2 = e_term e1).
+      { unfold rt_of in R1. rewrite Eev, Ebd in R1. destruct R1 as [[R1 R2] | [ents [jj [ee [R1 [R2 [R3 R4]]]]]]].
+        - destruct Sl as [_ [Ta _]]. destruct Ta as [Z0 | [e2 [A1 A2]]].
+          + exfalso. subst. contradiction.
+          + exists e2. subst idx. split; auto. congruence.
+        - subst oe. pose proof (slice_nth _ _ _ _ _ _ Sl R2) as A1. exists ee. split; [| congruence].
+          rewrite <- A1. f_equal. lia. }
+      destruct Hl as [e2 [A1 A2]].
+      assert (HG'l : In (m_term md, j, l) G') by (apply st_incl; exact Rin).
+      pose proof (same_term_prefix G' L' l (N.to_nat (idx - 1)) e1 e2 (g_cmp _ _ _ _ GI')
+                    (g_lm_node _ _ _ _ GI' i s' st_Gs') (g_lm_rec _ _ _ _ GI' _ _ _ HG'l) X1 A1 (eq_sym A2)) as Pf.
+      replace (S (N.to_nat (idx - 1))) with (N.to_nat idx) in Pf by lia.
+      split; [apply nth_len in X1; lia|]. exists j, l. rewrite <- Htm. auto.
+    Qed.
+
     Lemma keeps_nth_inv l P j e : keeps l P -> (j < length P)%nat -> nth_error l j = Some e -> nth_error P j = Some e.
     Proof.
       unfold keeps. intros H Hj Hl. rewrite <- H. rewrite nth_error_firstn'. apply Nat.ltb_lt in Hj. rewrite Hj. exact Hl.
